@@ -222,9 +222,12 @@ Proof.
   pose proof (Seg_rc T st (q_prev st c) (q_next st c) (Good_nodup _ G) HS (fun x H => sq_prev_out T st HS (Good_nodup _ G) c x Hc H) (fun x H => sq_next_out T st HS (Good_nodup _ G) c x Hc H)) as H1.
   pose proof (Ext_remove_consolidate st (q_prev st c) (q_next st c) G) as X1.
   destruct (remove_consolidate st (q_prev st c) (q_next st c)) as [st1 m0]. cbn [fst] in *. pose proof (ext_good _ _ X1) as G1.
-  pose proof (Seg_ac T st1 c (q_last_child st1 p) None (Good_nodup _ G1) H1 Hc (fun x H => sq_last_child_out T st1 H1 (Good_nodup _ G1) p x Hp H) (fun x H => ltac:(discriminate))) as H2.
-  pose proof (Ext_add_consolidate st1 c (q_last_child st1 p) None G1) as X2.
-  destruct (add_consolidate st1 c (q_last_child st1 p) None) as [st2 m]. cbn [fst] in *.
+  cbv zeta. set (last := if opt_eqb (q_last_child st1 p) (Some c) then q_prev st1 c else q_last_child st1 p).
+  assert (forall x, last = Some x -> ~ In x (ids T)) as Hlast.
+  { intros x H. unfold last in H. destruct (opt_eqb _ _); [exact (sq_prev_out T st1 H1 (Good_nodup _ G1) c x Hc H)|exact (sq_last_child_out T st1 H1 (Good_nodup _ G1) p x Hp H)]. }
+  pose proof (Seg_ac T st1 c last None (Good_nodup _ G1) H1 Hc Hlast (fun x H => ltac:(discriminate))) as H2.
+  pose proof (Ext_add_consolidate st1 c last None G1) as X2.
+  destruct (add_consolidate st1 c last None) as [st2 m]. cbn [fst] in *.
   destruct m; cbn [fst]; [exact H2|]. apply Seg_move_kids; auto. apply Good_nodup. apply X2.
 Qed.
 
@@ -260,9 +263,12 @@ Proof.
   pose proof (Seg_rc T st (q_prev st n) (q_next st n) (Good_nodup _ G) HS (fun x H => sq_prev_out T st HS (Good_nodup _ G) n x Hn H) (fun x H => sq_next_out T st HS (Good_nodup _ G) n x Hn H)) as H1.
   pose proof (Ext_remove_consolidate st (q_prev st n) (q_next st n) G) as X1.
   destruct (remove_consolidate st (q_prev st n) (q_next st n)) as [st1 m0]. cbn [fst] in *. pose proof (ext_good _ _ X1) as G1.
-  pose proof (Seg_ac T st1 n (q_prev st1 r) (Some r) (Good_nodup _ G1) H1 Hn (fun x H => sq_prev_out T st1 H1 (Good_nodup _ G1) r x Hr H) (fun x H => ltac:(inversion H; subst; exact Hr))) as H2.
-  pose proof (Ext_add_consolidate st1 n (q_prev st1 r) (Some r) G1) as X2.
-  destruct (add_consolidate st1 n (q_prev st1 r) (Some r)) as [st2 m]. cbn [fst] in *.
+  cbv zeta. set (prev := if opt_eqb (q_prev st1 r) (Some n) then q_prev st1 n else q_prev st1 r).
+  assert (forall x, prev = Some x -> ~ In x (ids T)) as Hprev.
+  { intros x H. unfold prev in H. destruct (opt_eqb _ _); [exact (sq_prev_out T st1 H1 (Good_nodup _ G1) n x Hn H)|exact (sq_prev_out T st1 H1 (Good_nodup _ G1) r x Hr H)]. }
+  pose proof (Seg_ac T st1 n prev (Some r) (Good_nodup _ G1) H1 Hn Hprev (fun x H => ltac:(inversion H; subst; exact Hr))) as H2.
+  pose proof (Ext_add_consolidate st1 n prev (Some r) G1) as X2.
+  destruct (add_consolidate st1 n prev (Some r)) as [st2 m]. cbn [fst] in *.
   destruct m; cbn [fst]; [exact H2|].
   apply (Seg_move T st2 n (fun t => a_before t) r); auto; [apply Good_nodup; apply X2|intros; apply sl_before|intros; apply finsert_before_fact].
 Qed.
